@@ -4,7 +4,7 @@
 P=$1; shift
 cd /repo || exit 2
 D=$(dirname "$P")
-if [ -f "$D/patch.rebased.diff" ] && ! git apply --check "$P" 2>/dev/null; then P="$D/patch.rebased.diff"; fi
+if [ -f "$D/patch.rebased.diff" ]; then P="$D/patch.rebased.diff"; fi
 if ! git apply --check "$P" 2>/dev/null; then
   if ! git apply --3way "$P" >/dev/null 2>&1; then echo "PATCH-DOES-NOT-APPLY $P"; git reset -q; git checkout HEAD -- . ; exit 3; fi
   git reset -q
